@@ -402,7 +402,7 @@ def trace_witness(goto, backend, unwind, pid, timeout):
     if r['status'] != 'done':
         return None, r
     for line in r['out'].splitlines():
-        m = re.match(r'^\s+(w_\w+)=(-?\d+|TRUE|FALSE)\b', line)
+        m = re.match(r'^\s+(w_\w+)=(-?\d+|TRUE|FALSE)(?:ull|ul|ll|u|l)?\b', line)
         if m and m.group(1) not in wit:
             v = m.group(2)
             wit[m.group(1)] = 1 if v == 'TRUE' else 0 if v == 'FALSE' else int(v)
